@@ -230,8 +230,11 @@ def explore(run, n_random, with_active=True):
             c.parent_via_callback = True          # on hosts that offer it the handlers ask `chart.parent_callback()` for their parent
             run.count("handlers ask the chart for their parent (register_parent style) on queued / active hosts")
         query = rng.random() < 0.5
+        if rng.random() < 0.25 and not getattr(c, "parent_via_callback", False):     # (those handlers are source text the harness writes: identifiers only)
+            c.name_prefix = rng.choice(["s{", "{x}", "s}", "s{0}", "%s", "st ate", "{", "s{:>8}"])
+            run.count("state functions whose names hold braces / % / blanks")
         ref_steps, ref_final, ref_err = run_config(c, start, evs, "plain", False)
-        cj = {"chart": c.to_json(), "start": start, "events": evs, "query": query}
+        cj = {"chart": c.to_json(), "start": start, "events": evs, "query": query, "name_prefix": getattr(c, "name_prefix", None)}
         run.count("handlers call current_state() after deciding" if query else "handlers do not query the chart")
         hosts = HOSTS if with_active else HOSTS[:3]
         for host in hosts:
@@ -338,6 +341,8 @@ def replay(case):
         detection_probe(R())
         return 0
     c = charts.GenChart.from_json(cc["chart"])
+    if cc.get("name_prefix"):
+        c.name_prefix = cc["name_prefix"]
     for host in HOSTS:
         for spied in (False, True):
             print(host, spied, run_config(c, cc["start"], cc["events"], host, spied, query=cc.get("query", False)))
